@@ -21,6 +21,7 @@ import Proofs.DdsPrintable
 import Proofs.DdsFuel
 import Proofs.DdsNorm
 import Proofs.DdsDimWitness
+import Proofs.DdsOrder
 namespace Pydap.C07
 open Pydap Pydap.Dds
 
@@ -132,6 +133,28 @@ theorem C07_fuel_adequate (text : Text) (g : Nat) (h : text.length ≤ g) :
 theorem C07_foreign (d : FDataset) (hwf : FWFds d) : parseDds (ftextDs d) = .ok (declDs d) :=
   foreign_parse d hwf
 
+/-- Tree identity including child ORDER, Grid members included.  `skelDs` is the tree of kinds and names of a
+    dataset in the order its containers hold their members — for a Grid: the array, then the maps in the order the Grid
+    holds them, whatever the array's dimensions are called and in whatever order (maps stored as `x, t, y` for an array
+    `v[t][y][x]`, maps that are no dimension of the array placed before ones that are, repeated dimension names,
+    dimensions without a map: `WFds` asks for none of these to be otherwise — only for names in `name_regexp`,
+    distinct sibling names and non-negative extents).  The dataset parsed from the printed DDS has the same skeleton. -/
+theorem C07_tree_order (d : Dataset) (s : Text) (hwf : WFds d) (hp : printDs d = .ok s) :
+    ∃ d', parseDds s = .ok d' ∧ skelDs d' = skelDs d :=
+  ⟨normDs d, parse_print d s hp hwf, normDs_skel d⟩
+
+/-- A foreign-style DDS read by pydap and written again.  The dataset `d₁` parsed from any text of the foreign printer
+    prints (every dtype of the parser's table is one the printer knows), and that DDS `s` is a reference text in the
+    sense of the first half of the property: it parses to a dataset `d₂` with the skeleton the foreign text
+    declared (kinds, names, order of members and of a Grid's maps as DECLARED), and `d₂` prints `s` again exactly. -/
+theorem C07_foreign_reprint (d : FDataset) (hwf : FWFds d) :
+    ∃ d₁ s, parseDds (ftextDs d) = .ok d₁ ∧ printDs d₁ = .ok s ∧
+      ∃ d₂, parseDds s = .ok d₂ ∧ skelDs d₂ = skelDs (declDs d) ∧ printDs d₂ = .ok s := by
+  obtain ⟨hw, hpr⟩ := declDs_wf d hwf
+  obtain ⟨s, hs⟩ := printDs_ok (declDs d) hpr
+  exact ⟨declDs d, s, foreign_parse d hwf, hs, normDs (declDs d), parse_print _ s hs hw, normDs_skel _,
+    by rw [printDs_norm, hs]⟩
+
 /-! ### non-vacuity (samples and their well-formedness proofs: `Proofs/DdsSamples.lean`) -/
 
 -- a dataset with a quoted name, a named 2-d array, an unnamed 1-d array without data, a structure, a sequence
@@ -185,5 +208,33 @@ example : printDs (normDs ⟨['d'], [.base ⟨['v'], ['c'], [], [], false⟩]⟩
   rw [C07_fixpoint]
   have l : lookup Gen.NUMPY_TO_DAP2_TYPEMAP (dtypeChar ['c']) = none := by decide
   simp [printDs, printL, printT, printBase, l]
+
+-- a Grid whose maps are NOT stored in the order of the array's dimensions (array `v[t][y][x]`; maps `x`, then `h` —
+-- no dimension of the array —, then `t`; `y` has no map) is in the domain of `C07_parse_print`, `C07_tree_order`,
+-- `C07_print_parse_print`; the printed DDS lists the maps in STORED order, and so does the parsed dataset
+example : WFds permGridWitness := permGridWitness_wf
+
+example : printDs permGridWitness
+    = .ok ("Dataset {\n    Grid {\n        Array:\n            Float64 v[t = 2][y = 3][x = 4];\n" ++
+      "        Maps:\n            Float32 x[x = 4];\n            Int32 h[h = 2];\n            Float64 t[t = 2];\n    } G;\n} d;\n").toList :=
+  permGridWitness_prints
+
+example : ∃ d', parseDds ("Dataset {\n    Grid {\n        Array:\n            Float64 v[t = 2][y = 3][x = 4];\n" ++
+      "        Maps:\n            Float32 x[x = 4];\n            Int32 h[h = 2];\n            Float64 t[t = 2];\n    } G;\n} d;\n").toList
+      = .ok d' ∧ skelDs d' = (['d'], [.grid ['G'] [['v'], ['x'], ['h'], ['t']]]) := by
+  obtain ⟨d', h1, h2⟩ := C07_tree_order permGridWitness _ permGridWitness_wf permGridWitness_prints
+  exact ⟨d', h1, by rw [h2]; rfl⟩
+
+-- the skeleton distinguishes the order of a Grid's maps: the same Grid with its maps in dimension order is another tree
+example : skelDs permGridWitness ≠
+    skelDs ⟨['d'], [.grid ['G'] [⟨['v'], ['d'], [2, 3, 4], [['t'], ['y'], ['x']], false⟩,
+                                 ⟨['t'], ['d'], [2], [['t']], false⟩, ⟨['h'], ['i'], [2], [], false⟩,
+                                 ⟨['x'], ['f'], [4], [['x']], false⟩]]⟩ := by
+  simp [skelDs, skelL, skelT, permGridWitness]
+
+-- `C07_foreign_reprint`: the foreign sample is in its domain
+example : ∃ d₁ s, parseDds (ftextDs fsample) = .ok d₁ ∧ printDs d₁ = .ok s :=
+  let ⟨d₁, s, h1, h2, _⟩ := C07_foreign_reprint fsample fsample_wf
+  ⟨d₁, s, h1, h2⟩
 
 end Pydap.C07
